@@ -1,8 +1,8 @@
 (* C19 — Client requests are sent one at a time and answered in FIFO order.
    Statements only; proofs are in Proofs/HttpClientProofs.v.
 
-   run mof (init_m https redirectable cmethod) evs : the client's bookkeeping (the
-   tag t has method mof t; the Client was constructed with method cmethod) after an arbitrary
+   run mof qof (init_m https redirectable cmethod) evs : the client's bookkeeping (the
+   tag t has method mof t and query arguments qof t; the Client was constructed with method cmethod) after an arbitrary
    schedule evs of  Enq tag  (Client.request) and  Pass o  (one Client.service();
    o = Some reply when a complete reply was consumed in that pass).  All theorems
    quantify over every schedule and every server behaviour (immediate, delayed =
@@ -16,8 +16,8 @@ Local Open Scope N_scope.
    twice, same order, each carrying its originating request (origin = the tag in
    the entry's request, or in the first redirect of its history).  On the wire the
    original requests appear in queue order and at most one is unanswered. *)
-Theorem C19_fifo : forall mof https redirectable cmethod evs,
-  let s := run mof (init_m https redirectable cmethod) evs in
+Theorem C19_fifo : forall mof qof https redirectable cmethod evs,
+  let s := run mof qof (init_m https redirectable cmethod) evs in
   map Some (enqs evs) = map origin (responses s) ++ inflight s ++ map Some (queue s)
   /\ (length (inflight s) <= 1)%nat
   /\ (exists rest, enqs evs = wire_reqs (wire s) ++ rest)
@@ -27,27 +27,50 @@ Print Assumptions C19_fifo.
 
 (* Redirects are followed transparently with the history attached: completing a
    reply either delivers an entry (history := the hops so far) or, for a followed
-   redirect, appends exactly that hop and delivers nothing; *)
+   redirect, appends exactly that hop (with the target of the redirected request)
+   and delivers nothing; the follow-up request is sent to exactly the Location's
+   path and query - nothing of the redirected request's query is carried over -
+   and that is what the requester now holds; *)
 Theorem C19_redirect_step : forall s r,
   (exists err c, complete s r = deliver s (rp_status r) err c)
-  \/ (redirects (complete s r) = redirects s ++ [(rp_status r, latest s)]
+  \/ (exists l, rp_loc r = Some l
+      /\ redirects (complete s r) = redirects s ++ [(rp_status r, latest s)]
+      /\ rtargets (complete s r) = rtargets s ++ [rq_target s]
+      /\ rq_target (complete s r) = (true, rp_id r, l_query l)
+      /\ (sent (complete s r) = true ->
+          exists w, wire (complete s r) = wire s ++ [w] /\ w_item w = WRedir (rp_id r) /\ w_q w = l_query l)
       /\ responses (complete s r) = responses s /\ waited (complete s r) = true
       /\ is_redirect (rp_status r) = true /\ redirectable s = true).
 Proof. exact complete_cases. Qed.
 Print Assumptions C19_redirect_step.
 
+(* a delivered entry names the target (path, query) of the request it answers
+   and of the request of every hop of its history; *)
+Theorem C19_entry_targets : forall s st err c,
+  exists e, responses (deliver s st err c) = responses s ++ [e]
+    /\ e_target e = rq_target s /\ e_targets e = rtargets s /\ e_history e = redirects s.
+Proof. exact deliver_targets. Qed.
+Print Assumptions C19_entry_targets.
+
+(* every original request reaches the wire with exactly its own query arguments; *)
+Theorem C19_wire_queries : forall mof qof https redirectable cmethod evs,
+  Forall (fun w => match w_item w with WReq t => w_q w = qof t | WRedir _ => True end)
+         (wire (run mof qof (init_m https redirectable cmethod) evs)).
+Proof. exact wire_queries. Qed.
+Print Assumptions C19_wire_queries.
+
 (* ... and in every reachable state every entry's history consists of redirect
    statuses only, only its first hop carries a request tag, and an entry with a
    history carries no tag itself (the originating request is in the history). *)
-Theorem C19_history_attached : forall mof https redirectable cmethod evs,
-  Forall good_entry (responses (run mof (init_m https redirectable cmethod) evs)).
+Theorem C19_history_attached : forall mof qof https redirectable cmethod evs,
+  Forall good_entry (responses (run mof qof (init_m https redirectable cmethod) evs)).
 Proof. exact history_attached. Qed.
 Print Assumptions C19_history_attached.
 
 (* https -> http is refused: an https client stays on https connectors whatever
    the servers answer, and everything it ever sent went over https; *)
-Theorem C19_https_never_downgraded : forall mof redirectable cmethod evs,
-  let s := run mof (init_m true redirectable cmethod) evs in
+Theorem C19_https_never_downgraded : forall mof qof redirectable cmethod evs,
+  let s := run mof qof (init_m true redirectable cmethod) evs in
   https s = true /\ Forall (fun w => w_https w = true) (wire s).
 Proof. exact https_kept. Qed.
 Print Assumptions C19_https_never_downgraded.
@@ -66,15 +89,15 @@ Print Assumptions C19_downgrade_refused.
    that request, also across followed redirects, so the "HEAD reply has no body"
    rule is applied to HEAD replies and to no others and every reply the server
    sends for the request on the wire is consumed whole (readable). *)
-Theorem C19_method_tracks : forall mof https redirectable cmethod evs,
-  let s := run mof (init_m https redirectable cmethod) evs in
+Theorem C19_method_tracks : forall mof qof https redirectable cmethod evs,
+  let s := run mof qof (init_m https redirectable cmethod) evs in
   waited s = true ->
   rs_method s = rq_method s /\ (forall t, inflight s = [Some t] -> rq_method s = mof t).
 Proof. exact method_tracks. Qed.
 Print Assumptions C19_method_tracks.
 
-Theorem C19_reply_always_readable : forall mof https redirectable cmethod evs r,
-  let s := run mof (init_m https redirectable cmethod) evs in
+Theorem C19_reply_always_readable : forall mof qof https redirectable cmethod evs r,
+  let s := run mof qof (init_m https redirectable cmethod) evs in
   waited s = true -> readable s r = true.
 Proof. exact always_readable. Qed.
 Print Assumptions C19_reply_always_readable.
@@ -84,7 +107,7 @@ Print Assumptions C19_reply_always_readable.
    connection, the next request is popped but never reaches the wire and never
    gets an entry, however many passes follow. *)
 Theorem C19_all_answered_refuted :
-  exists evs, let s := run (fun _ => 0) (init_m false true 0) (evs ++ repeat (Pass None) 50) in
+  exists evs, let s := run (fun _ => 0) (fun _ => []) (init_m false true 0) (evs ++ repeat (Pass None) 50) in
     enqs evs = [1; 2] /\ length (responses s) = 1%nat /\ waited s = true /\ wire_reqs (wire s) = [1].
 Proof.
   exists [Enq 1; Enq 2; Pass None; Pass (Some {| rp_id := 0; rp_status := 200; rp_loc := None; rp_close := true |})].
@@ -96,25 +119,27 @@ Print Assumptions C19_all_answered_refuted.
    then relative), the second is refused an https -> http... on an http client it
    is followed; the third gets a delayed plain answer. *)
 Example C19_example :
-  let rel := {| l_host := None; l_https := false |} in
+  let rel := {| l_host := None; l_https := false; l_query := [(1, 7)] |} in
   let evs := [Enq 5; Enq 6; Enq 7; Pass None;
-              Pass (Some {| rp_id := 0; rp_status := 301; rp_loc := Some {| l_host := Some 1; l_https := false |}; rp_close := false |});
+              Pass (Some {| rp_id := 0; rp_status := 301; rp_loc := Some {| l_host := Some 1; l_https := false; l_query := [] |}; rp_close := false |});
               Pass None;
               Pass (Some {| rp_id := 1; rp_status := 307; rp_loc := Some rel; rp_close := false |});
               Pass (Some {| rp_id := 2; rp_status := 200; rp_loc := None; rp_close := false |});
               Pass None; Pass None;
               Pass (Some {| rp_id := 3; rp_status := 404; rp_loc := None; rp_close := false |}); Pass None] in
-  let s := run (fun t => if t =? 6 then HEAD else 0) (init_m false true 0) evs in
+  let s := run (fun t => if t =? 6 then HEAD else 0) (fun t => if t =? 5 then [(0, 1); (1, 2)] else []) (init_m false true 0) evs in
   map origin (responses s) = [Some 5; Some 6] /\ inflight s = [Some 7] /\ queue s = [] /\
   map e_history (responses s) = [[(301, Some 5); (307, None)]; []] /\
-  wire_reqs (wire s) = [5; 6; 7] /\ map w_conn (wire s) = [0; 1; 1; 1; 1].
+  wire_reqs (wire s) = [5; 6; 7] /\ map w_conn (wire s) = [0; 1; 1; 1; 1] /\
+  map w_q (wire s) = [[(0, 1); (1, 2)]; []; [(1, 7)]; []; []] /\
+  map e_targets (responses s) = [[(false, 5, [(0, 1); (1, 2)]); (true, 0, [])]; []].
 Proof. vm_compute. repeat split. Qed.
 
 Example C19_example_refused :
   let evs := [Enq 1; Enq 2; Pass None;
-              Pass (Some {| rp_id := 0; rp_status := 302; rp_loc := Some {| l_host := Some 1; l_https := false |}; rp_close := false |});
+              Pass (Some {| rp_id := 0; rp_status := 302; rp_loc := Some {| l_host := Some 1; l_https := false; l_query := [] |}; rp_close := false |});
               Pass None] in
-  let s := run (fun _ => 0) (init_m true true HEAD) evs in
+  let s := run (fun _ => 0) (fun _ => []) (init_m true true HEAD) evs in
   map (fun e => (e_status e, e_errored e, e_tag e)) (responses s) = [(302, true, Some 1)] /\
   wire_reqs (wire s) = [1; 2] /\ map w_https (wire s) = [true; true].
 Proof. vm_compute. repeat split. Qed.
